@@ -15,7 +15,12 @@ The built-in module scopes are `&'static Scope`s whose maps sit behind `Mutex`es
 ARE mutable in principle; what keeps them constant is the code paths modelled here:
 * `variablescope.rs` `Scope::set_variable`, module-path branch (`ns.$x: v`): `assign`
   (the non-module branch delegates to `Scope::assign` — which walks up the parent chain of
-  the USER scope; built-in module scopes are nobody's parent — or to `define_global`)
+  the USER scope; built-in module scopes are nobody's parent — or to `define_global`;
+  new variables go through `Scope::declare`, `!default` through `config_used`, both
+  walking USER parents only)
+* `Scope::configure` / the `config: Mutex<BTreeSet<Name>>` field (since /repo 17cd11e):
+  written only on the fresh dynamic module of a user file — `ConfigBuiltin` is returned
+  for `sass:` urls before it could be reached
 * `output/transform.rs` `Item::Use` / `Item::Forward` with a `with (...)` clause: `use`, `forward`
 * `sass/mixin.rs` `MixinDecl::LoadCss`: `loadCss`
 * `@use "sass:m" as *` (`Scope::expose_star` copies INTO the user's scope): `useStar`
@@ -68,6 +73,7 @@ def Comp.empty : Comp := ⟨[], [], [], [], []⟩
 
 inductive Err
   | noModule | undefinedVariable | modifiedBuiltin | configBuiltin | cantFind | undefinedFunction
+  | unusedConfig
 deriving Repr, DecidableEq
 
 /-- the statements of a stylesheet that touch module/global state or observe it -/
@@ -152,9 +158,14 @@ def stepPure (ms : List (Name × ScopeData)) (fs : List (Name × Nat)) (c : Comp
       | some vs =>
         -- a fresh dynamic module scope: configured values first, then the module's own
         -- `!default` declarations
-        let m : ScopeData := ⟨none, vs.foldl (fun acc (k, v) => setLocal acc k v true) cfg, []⟩
-        .ok ({ c with userModules := c.userModules ++ [m],
-                         uses := (ns, .user c.userModules.length) :: c.uses })
+        -- (since /repo 17cd11e: `configure` records the names in the module's `config` set,
+        -- each `!default` declaration removes its name (`config_used`), a name left over is
+        -- an error (`check_config`) — all of it on the fresh dynamic module scope)
+        if cfg.all (fun kv => (vs.lookup kv.1).isSome) then
+          let m : ScopeData := ⟨none, vs.foldl (fun acc (k, v) => setLocal acc k v true) cfg, []⟩
+          .ok ({ c with userModules := c.userModules ++ [m],
+                           uses := (ns, .user c.userModules.length) :: c.uses })
+        else .error .unusedConfig
   | .useStar url =>
     match ms.lookup url with
     | none => .error .cantFind
